@@ -163,6 +163,9 @@ Definition verdict (c : case) : Z :=
                   && splits_ok split_state_ok inherits_destroyed c
                   && splits_ok split_reverts_ok (fun b i => inherits_destroyed b i || marker_clash b i) c)
     then 2
+    (* a known finding is the recorded behaviour: the implementation still does what the model
+       (which mirrors the unchanged code, defects included) does; any other wrong answer is new *)
+    else if negb (corr c) then 2
     else if negb (splits_ok split_state_ok never c) then 10
     else if splits_ok split_reverts_ok inherits_destroyed c then 11
     else 12
